@@ -51,6 +51,8 @@ K1_C07 = ['ScenarioManagerSd.add_scenarios', 'SdScenario.__init__', 'SdScenario.
 _SCEN_ASSUME = ['scenario lookup (ScenarioManagerFactory.get_scenarios) returns live scenario objects owning distinct models (assumed contract)',
                 'SdSimulation.start simulates with the model\'s current run spec (assumed here; its pieces are under contract in C05)',
                 'values of constants / points are opaque (ANY): the contracts speak about WHICH entries are replaced, not about evaluating the lambdas',
+                'dictionaries and records handed in as arguments are VALUES in the K1 encoding: a write through an alias of the caller\'s object is not modelled (add_scenarios did exactly that until its fix; the native search registers one dictionary with two managers)',
+                'copy.deepcopy of a scenario dictionary returns an equal value that shares nothing (trusted contract)',
                 'Python semantics of the subset (DESIGN 2.2.7); single-threaded']
 
 PROPS = {
